@@ -16,6 +16,8 @@ Level(c, p, i) == IF i > Len(p) THEN c
 Verdict(r) ==
   LET c == Level(Build(Defs[r.d].cmd, NoInherit), r.path, 1) IN
   IF r.obs.panicked THEN "C12-panic"
+  ELSE IF r.mode \in {"tmplA_short", "tmplB_short", "tmplC_short"} THEN (IF P12Template(c, FALSE, r.obs) THEN "ok" ELSE "C12-custom-template")
+  ELSE IF r.mode \in {"tmplA_long", "tmplB_long", "tmplC_long"} THEN (IF P12Template(c, TRUE, r.obs) THEN "ok" ELSE "C12-custom-template")
   ELSE IF ~r.level_ok THEN "C12-help-of-wrong-level"
   ELSE IF r.mode \in {"mirror_short", "mirror_long"} THEN (IF P12Mirror(c, r.obs) THEN "ok" ELSE "C12-help-tree-mirror")
   ELSE IF r.mode = "usage" THEN (IF P12Usage(c, r.obs) THEN "ok" ELSE "C12-usage-mentions-hidden")
